@@ -310,6 +310,28 @@ def run (real : Bool) (lines : List String) : IO Unit := do
         if sv != gv || sv != want then
           tally ← pfail s!"Sz shortcut {sv}, generic polynomial form {gv}, (n_up - n_down)/2 = {want}" tally
       | _ => tally ← report false "unparsable line" tally
+    | "sz2" :: nm :: nup :: rest =>
+      tally := tally.bump "sz2"
+      let _M := nm.toNat!; let n := nup.toNat!
+      let ups := (rest.take n).map (·.toNat!)
+      let nd := (rest.getD n "0").toNat!
+      let downs := ((rest.drop (n + 1)).take nd).map (·.toNat!)
+      let ket := (rest.getD (n + 1 + nd) "0").toNat!
+      match rhs with
+      | "throw" :: _ =>
+        tally ← report (ups.length != downs.length) "impl threw although up/down counts agree" tally
+      | "ok" :: vs =>
+        let w := if real then 1 else 2
+        let sv := (floatOfHex (vs.headD "")).getD 0.0
+        let gv := (floatOfHex (vs.getD w "")).getD 0.0
+        let cnt := (vs.getD (2 * w) "0").toNat!
+        let st := (vs.getD (2 * w + 1) "0").toNat!
+        let av := (floatOfHex (vs.getD (2 * w + 2) "")).getD 0.0
+        let want := 0.5 * Float.ofInt (szTwice ups downs ket)
+        tally ← report (ups.length == downs.length && sv == want) s!"model Sz = {want}, impl = {sv}" tally
+        if sv != gv || sv != want || cnt != 1 || st != ket || av != want then
+          tally ← pfail s!"Sz(ups,downs) shortcut {sv}, generic polynomial form {gv}, (n_up - n_down)/2 = {want}, actRight -> {cnt} states, {st}: {av}" tally
+      | _ => tally ← report false "unparsable line" tally
     | _ => pure ()
   tally.report
 
